@@ -10,6 +10,8 @@ import c_point
 import c_matrix
 import c_quat
 import c_angle
+import c_rot
+import re
 import sym
 
 
@@ -126,6 +128,55 @@ def unit_C13(src, model='R'):
     return u
 
 
+def full_base(u, angle_kind='Rad'):
+    """everything proved by C01-C04, C12, C13 (spec library + contracts + selections); callers set u.assume_pred so that
+    only their own functions are verified with bodies, the rest are assumed contracts (proved by the owning unit)"""
+    lib, F = base_linear(u)
+    c_matrix.build_c02(lib, F)
+    c_quat.build(lib, F)
+    c_angle.build(lib, F)
+    c_rot.build(lib, F)
+    u.spec_texts.append(c_matrix.cf_spec())
+    u.spec_texts.append(c_angle.text_specs())
+    hints, polys, lemmas = c_matrix.c02_hints(F)
+    u.contract_fns.insert(0, c_matrix.contracts_c02(hints))
+    u.contract_fns.insert(0, c_matrix.contract_det_sub)
+    u.contract_fns += [c_quat.contracts, c_angle.contracts]
+    u.select(Sel('SquareMatrix', c_matrix.MAT, ['determinant', 'invert']))
+    u.free_fns.append(('matrix', 'det_sub_proc_unsafe'))
+    c_quat.select_c04(u)
+    c_angle.select_c13(u)
+    u.extra_prelude.append(c_angle.trusted_prelude())
+    u.subst['A'] = '%s<Sc>' % angle_kind
+    u.angle_kind = angle_kind
+    return lib, F
+
+
+def unit_C06(src, angle_kind='Rad'):
+    u = Unit('C06' + ('' if angle_kind == 'Rad' else 'deg'), src, 'R')
+    lib, F = full_base(u, angle_kind)
+    u.spec_texts.append(lib.text())
+    hints, polys = c_rot.shape_hints(F)
+    u.poly_texts += polys
+    u.contract_fns.insert(0, c_rot.contracts(hints, angle_kind))
+    c_rot.select_c06(u)
+    own = lambda im, f: (im is not None and (im.module == 'rotation' or
+                         (im.module == 'matrix' and re.match(r'from_angle|from_axis_angle', f.name)) or
+                         (im.module == 'quaternion' and trait_name_of(im) == 'Rotation3') or
+                         (trait_name_of(im) == 'Rotation' and f.name in ('rotate_point',))))
+    u.assume_pred = lambda im, f: not own(im, f)
+    if angle_kind == 'Rad':
+        u.lemma_texts.append(sym.HELPER_LEMMAS)
+        u.lemma_texts.append(c_rot.handwritten_laws())
+        add_laws(u, c_rot.laws(F))
+    return u
+
+
+def trait_name_of(im):
+    from emit import trait_name
+    return trait_name(im.trait)
+
+
 def unit_C01t(src, model='R'):
     """twin of C01 holding `Transform<Point2<S>> for Matrix3<S>` (see c_matrix.select_c01)"""
     u = Unit('C01t', src, model)
@@ -138,7 +189,7 @@ def build_C03(src, tier):
     return [unit_C03(src, 'R')]
 
 
-UNITS = {'C13': lambda src, tier: [unit_C13(src, 'R')], 'C04': lambda src, tier: [unit_C04(src, 'R')], 'C02': lambda src, tier: [unit_C02(src, 'R')], 'C01': lambda src, tier: [unit_C01(src, 'R'), unit_C01t(src, 'R')], 'C03': build_C03, 'C12': lambda src, tier: [unit_C12(src, 'R')]}
+UNITS = {'C06': lambda src, tier: [unit_C06(src, 'Rad'), unit_C06(src, 'Deg')], 'C13': lambda src, tier: [unit_C13(src, 'R')], 'C04': lambda src, tier: [unit_C04(src, 'R')], 'C02': lambda src, tier: [unit_C02(src, 'R')], 'C01': lambda src, tier: [unit_C01(src, 'R'), unit_C01t(src, 'R')], 'C03': build_C03, 'C12': lambda src, tier: [unit_C12(src, 'R')]}
 KANI = {}
 META = {
     'C03': dict(min_obligations=350, trust=['A1', 'A2', 'A6'],
